@@ -5,10 +5,13 @@
 //!   {"k":"atom","ty":NAME,"a":V,"acc":V} -> atoms (in iteration order, each in the carrier's
 //!        JSON form), their is_bot, a.is_bot(), Default, the atoms merged into Default (with each
 //!        merge's changed flag), a == reformed, the atoms merged into acc, a merged into acc, ==
+//!   {"k":"uf","rep":"hash"|"btree","u":U,"a":[[k,p]..],"acc":[[k,p]..]} -> see uf.rs
 //!   {"k":"types"}                        -> the registered type names
 //! Values (as h_lattices): unit = null; Set = sorted array; Map = sorted array of [k,v];
 //! WithBot/WithTop = null | [v].  The Canon machinery is copied from harness/h_lattices.
 use std::collections::{BTreeMap, BTreeSet, HashMap, HashSet};
+
+mod uf;
 
 use hvcommon::{Value, guarded, json};
 use lattices::collections::{ArrayMap, ArraySet, OptionMap, OptionSet, SingletonMap, SingletonSet, VecMap};
@@ -346,6 +349,7 @@ fn run(case: &Value) -> Value {
     thread_local! { static REG: Registry = registry(); }
     REG.with(|r| match case["k"].as_str().unwrap_or("") {
         "types" => json!(r.names),
+        "uf" => guarded(|| uf::run(case)),
         "atom" => {
             let ty = case["ty"].as_str().unwrap();
             match r.atom.get(ty) {
